@@ -128,6 +128,9 @@ theorem semNew_ep (n : Name) (c : Bool) (e : EP) : Always (semNew n c e) (fun r 
 theorem mmapNew_ep (len : Nat) (e : EP) : Always (mmapNew len e) (fun r => EPle e r.2) := by
   unfold mmapNew; ep_tac
 
+theorem mmapUnmap_ep (i len : Nat) (e : EP) : Always (mmapUnmap i len e) (fun r => EPle e r.2) := by
+  unfold mmapUnmap; ep_tac
+
 theorem shmOpen_ep (id size : Nat) (e : EP) : Always (shmOpen id size e) (fun r => EPle e r.2) := by
   unfold shmOpen; ep_tac
 
@@ -188,6 +191,7 @@ theorem mutRun_ep (k : MutK) (o : Obj) (e : EP) (m : ResM (Char × Option Obj ×
     Always m (fun r => EPle e r.2.2) := by
   cases k <;> cases o <;> simp only [mutRun, Option.some.injEq, reduceCtorEq] at hm
   case iniParse.ini i => subst hm; apply Always.bind' (iniParse_ep i e); rintro ⟨c, i', e'⟩ h; ep_tac
+  case mmapFree.mmap i len => subst hm; apply Always.bind' (mmapUnmap_ep i len e); rintro ⟨ok, e'⟩ h; ep_tac
   case sockListen.sock x =>
     split at hm <;> simp only [Option.some.injEq, reduceCtorEq] at hm
     subst hm; apply Always.bind' (sockListen_ep x e); rintro ⟨c, i', e'⟩ h; ep_tac
